@@ -126,3 +126,15 @@ Definition ascii_encode_r (t : text) : result (list N) :=
   if forallb (fun c => N.ltb c 128) t then Ok t else Exc UnicodeEncodeError.
 (* unquote_bytes_to_wsgi(b) = urllib.parse.unquote_to_bytes(b).decode('latin-1'): code point = byte *)
 Definition unquote_to_wsgi (b : list N) : text := Percent.unquote b.
+
+(* ------------------------------------------------------------ _join_path_tuple *)
+(* [f(x) for x in t] with an f that may raise: the first exception propagates *)
+Fixpoint rmap_r {A B} (f : A -> result B) (l : list A) : result (list B) :=
+  match l with
+  | [] => Ok []
+  | x :: r => rbind (f x) (fun y => rbind (rmap_r f r) (fun ys => Ok (y :: ys)))
+  end.
+(* quote_path_segment(segment, safe) for a str segment: UTF-8 (lone surrogates: UnicodeEncodeError), then
+   urllib.parse.quote with that safe set; the (segment, safe) dictionary is transparent (Proofs/C02_memo.v) *)
+Definition quote_segment_r (safe seg : text) : result text :=
+  if forallb valid_scalar seg then Ok (Percent.quote safe (Utf8.encode seg)) else Exc UnicodeEncodeError.
